@@ -5,17 +5,17 @@
 namespace SparseV.Spec
 
 /-- a dense matrix as a list of rows -/
-abbrev Dense := List (List Int)
+abbrev DenseM := List (List Int)
 
 /-- element `(r, c)` of a dense matrix (0 outside; the theorems only read inside) -/
-def dget (b : Dense) (r c : Nat) : Int := (b.getD r []).getD c 0
+def dget (b : DenseM) (r c : Nat) : Int := (b.getD r []).getD c 0
 
 /-- **The specification.** `(a @ b)[i, k] = Σ_{j < n} a[i, j] * b[j, k]` for operands given as functions. -/
 def matmulSpec (n : Nat) (a b : Nat → Nat → Int) (i k : Nat) : Int :=
   ((List.range n).map fun j => a i j * b j k).sum
 
 /-- the product of an `nRow × n` and an `n × nCol` dense matrix, as a list of rows -/
-def matmulD (nRow n nCol : Nat) (a b : Dense) : Dense :=
+def matmulD (nRow n nCol : Nat) (a b : DenseM) : DenseM :=
   (List.range nRow).map fun i => (List.range nCol).map fun k => matmulSpec n (dget a) (dget b) i k
 
 /-- transpose of an operand given as a function -/
